@@ -57,10 +57,11 @@ Definition guards_safe : Prop :=
   (forall codelen target t, ex_dcall_target codelen target = GOk t -> 0 <= t < codelen) /\
   (forall callers n, ex_pushcontext callers = GOk n -> n <= MAX_INVOCATION_STACK_SIZE) /\
   (* native contracts: the repaired index / length tests (ontid 2977caad; ontfs ae8b0797, 6811a1ff,
-     b73cd5e2), for every uint32 index and every key list / proof *)
+     b73cd5e2; governance updateConfig L % K 0545dab5), for every uint32 index and every key list / proof *)
   (forall (A : Type) (keys : list A) (index x n : Z), 0 <= index < 4294967296 ->
      no_panic (ontid_revoke_v0 keys index) /\ no_panic (ontid_revoke_v1 keys index) /\ no_panic (ontid_getpk keys index) /\
-     no_panic (ontfs_proof_version keys) /\ no_panic (ontfs_challenge x n) /\ no_panic (ontfs_merkle_parts keys)).
+     no_panic (ontfs_proof_version keys) /\ no_panic (ontfs_challenge x n) /\ no_panic (ontfs_merkle_parts keys) /\
+     no_panic (gov_l_mod_k x n)).
 
 Theorem c12_guards_safe : guards_safe.
 Proof.
@@ -81,7 +82,7 @@ Proof.
   - exact ex_pushcontext_bounded.
   - intros A keys index x n Hi. destruct (ontid_revoke_safe keys index Hi) as [R0 R1].
     destruct (ontfs_safe keys x n) as [F1 [F2 F3]].
-    repeat apply conj; try assumption. apply ontid_getpk_safe; exact Hi.
+    repeat apply conj; try assumption; first [apply ontid_getpk_safe; exact Hi|apply gov_l_mod_k_safe].
 Qed.
 Print Assumptions c12_guards_safe.
 
